@@ -5,6 +5,10 @@ CONSTANTS
   Rig = "raw-lib"
   NReq = 2
   BigFrames = {2}
+  NEvents = 0
+  NSpurious = 0
+  Dup = FALSE
+  SplitSmall = {}
   Faults = {}
 INVARIANTS RequestsInOrder ResponsesInOrder WireOK ModesAgree AllArrive Emit
 CHECK_DEADLOCK FALSE
